@@ -249,3 +249,71 @@ def run(P: Program, R: Report, tier: str) -> None:
     R.check(shapes[0] == shapes[1] and len(shapes[0]) == 3, "R06.7", ann.methods["update"], ann.node,
             "tracklet and lineage bookkeeping helpers have the same effect shape",
             f"{shapes[0]} vs {shapes[1]}", via="sibling-agreement")
+
+    # ---- R06.8 a move in the bookkeeping takes the nodes out of the old entry BEFORE it puts them into the new one
+    move_order(P, R, ann, fams)
+    # ---- R06.9 the neighbour query returns the time-nearest members of the track
+    from .neighbours import nearest_neighbour
+
+    nearest_neighbour(P, R, "R06.9")
+
+
+def move_order(P: Program, R: Report, ann, fams) -> None:
+    """old id == new id is legal (an inverse hands back the captured id of a relabel that did not change it).
+    With an adder that de-duplicates (or a remover that drops every occurrence), add-then-remove leaves the nodes
+    in NO entry although they still carry the id; remove-then-add is right for every pair of ids."""
+    n = 0
+    for fam in fams:
+        mp = fam["map"]
+
+        def touches(m, kinds):
+            out = []
+            for x in ast.walk(m.node):
+                if isinstance(x, ast.Call) and isinstance(x.func, ast.Attribute) and x.func.attr in kinds and f"self.{mp}" in norm(x.func.value):
+                    out.append(x)
+                if "del" in kinds and isinstance(x, ast.Delete) and any(f"self.{mp}[" in norm(t) for t in x.targets):
+                    out.append(x)
+            return out
+
+        adders = {name: m for name, m in ann.methods.items() if touches(m, ("append", "extend", "add", "update", "insert"))}
+        removers = {name: m for name, m in ann.methods.items() if touches(m, ("remove", "discard", "difference_update", "pop"))}
+        only_add = {k: v for k, v in adders.items() if k not in removers}
+        only_rem = {k: v for k, v in removers.items() if k not in adders}
+        for name, m in ann.methods.items():
+            calls = [c for c in ast.walk(m.node) if isinstance(c, ast.Call) and isinstance(c.func, ast.Attribute) and norm(c.func.value) == "self"]
+            a_calls = [c for c in calls if c.func.attr in only_add]
+            r_calls = [c for c in calls if c.func.attr in only_rem]
+            if not a_calls or not r_calls:
+                continue
+            cfg = build_cfg(m.node)
+
+            stmt = cfg.node_containing
+
+            for a in a_calls:
+                for r in r_calls:
+                    if not a.args or not r.args or norm(a.args[0]) != norm(r.args[0]):
+                        continue
+                    n += 1
+                    sa_, sr = stmt(a), stmt(r)
+                    if sa_ is None or sr is None:
+                        R.undecided("R06.8", m, a, f"{name}: order of the move in {mp}", "call sites not found in the flow graph")
+                        continue
+                    add_first = sa_ != sr and cfg.reachable(sa_, sr)
+                    adder = only_add[a.func.attr]
+                    dedup = any(isinstance(i, ast.If) and "not in" in norm(i.test) and any(isinstance(x, ast.Call) and call_name(x) in ("append", "extend") for x in ast.walk(i))
+                                for i in ast.walk(adder.node) if isinstance(i, ast.If) and mp in norm(i.test) and "[" in norm(i.test)) or bool(touches(adder, ("add", "update")))
+                    remover = only_rem[r.func.attr]
+                    rem_all = bool(touches(remover, ("discard", "difference_update"))) or any(
+                        isinstance(s, ast.Assign) and f"self.{mp}[" in norm(s.targets[0]) and isinstance(s.value, (ast.ListComp, ast.SetComp)) for s in ast.walk(remover.node))
+                    guarded = any(isinstance(i, ast.If) and isinstance(i.test, ast.Compare) and isinstance(i.test.ops[0], ast.NotEq)
+                                  and {norm(i.test.left), norm(i.test.comparators[0])} == {norm(a.args[1]) if len(a.args) > 1 else "", norm(r.args[1]) if len(r.args) > 1 else ""}
+                                  for i in ast.walk(m.node))
+                    if not add_first or guarded:
+                        R.ok("R06.8", m, r, f"{name}: nodes leave the old {mp} entry before they enter the new one", via="cfg-order")
+                    elif dedup or rem_all:
+                        R.fail("R06.8", m, a, f"{name}: nodes leave the old {mp} entry before they enter the new one",
+                               f"`{norm(a)[:60]}` runs before `{norm(r)[:60]}`; {a.func.attr} {'de-duplicates' if dedup else 'adds'} and {r.func.attr} removes"
+                               f"{' every occurrence' if rem_all else ''}: when the old and the new id are equal (undo of a relabel that kept the id) the nodes end up in no entry")
+                    else:
+                        R.ok("R06.8", m, a, f"{name}: add-then-remove on a plain list (extend, then remove one occurrence each) keeps one copy", via="cfg-order")
+    R.floor("R06.8", "move sites (remove + add of the same nodes)", n, 2)
